@@ -50,6 +50,7 @@ class NDNApp:
     data_validator: Validator = None
     _autoreg_routes: list[tuple[FormalName, Route, Validator | None, bool, bool]]
     _prefix_register_semaphore: aio.Semaphore = None
+    _starting_task: aio.Task = None
     _last_command_timestamp: int = 0
     logger: logging.Logger
 
@@ -290,6 +291,9 @@ class NDNApp:
 
         async def starting_task():
             for name, route, validator, need_raw_packet, need_sig_ptrs in self._autoreg_routes:
+                if self._starting_task is not aio.current_task():
+                    # The connection this task belongs to ended with an exception (nobody awaits the task any more)
+                    return
                 await self.register(name, route, validator, need_raw_packet, need_sig_ptrs)
             if after_start:
                 try:
@@ -308,6 +312,7 @@ class NDNApp:
                     after_start.cancel()
             raise
         task = aio.create_task(starting_task())
+        self._starting_task = task
         self.logger.debug('Connected to NFD node, start running...')
         try:
             await self.face.run()
@@ -315,6 +320,11 @@ class NDNApp:
         except aio.CancelledError:
             self.logger.info('Shutting down')
             ret = False
+        except BaseException:
+            # The start-up task is not awaited on this path: it must not go on registering routes
+            # (on the next connection, if the application reconnects while a command is still pending)
+            self._starting_task = None
+            raise
         finally:
             self.face.shutdown()
             # Also when face.run() raises (e.g. ConnectionAbortedError): the callbacks of this connection must go,
